@@ -24,7 +24,8 @@ RULE = (
     "scored by nobody, duplicated ballots for ties) and, from it, ONE single-violation variant at "
     "a generated ballot index: scores removed (None / all zero), one negative score, one score of "
     "L + 1e-6, a total of k + 1e-6; and the boundary-exact variants (== L, == k) which must be "
-    "accepted.  Non-trivial = the perturbed ballot is not the first one, or the variant is a "
+    "accepted; in a third of the cases the same ballots are first counted for a longer candidate "
+    "list.  Non-trivial = the perturbed ballot is not the first one, or the variant is a "
     "smallest-margin / boundary one, or a candidate is scored by nobody.  Distinct = SHA-1 of case JSON."
 )
 ASSUMPTIONS = [
